@@ -17,27 +17,40 @@ from vverif.core import Result, Violation, HarnessError
 LEVEL = 'model_checking'
 TYPES = 'MHDPX'            # Miss, Hit, heaD, Post, denied (X)
 METHOD = {'M': 'GET', 'H': 'GET', 'D': 'HEAD', 'P': 'POST', 'X': 'GET'}
-SIZES = [30, 5000, 100]    # origin body size by pipeline position (the second one spans more than one 4 KB page)
-CONF = 'pipeline_prefetch 3\nacl denied urlpath_regex ^/x-\nhttp_access deny denied\n'
+SIZES = [30, 5000, 100, 4097]    # origin body size by pipeline position (some span more than one 4 KB page)
+CONF = 'pipeline_prefetch %d\nacl denied urlpath_regex ^/x-\nhttp_access deny denied\n'
+
+
+def _tuples(k, alphabet=TYPES):
+    out = ['']
+    for _ in range(k):
+        out = [p + t for p in out for t in alphabet]
+    return out
 
 
 def cases_for(tier):
+    """pf = pipeline_prefetch value of the instance: 3 (no request is ever held back for k <= 4) and 1 (the third
+    request of a pipeline is parsed only after the first response is finished)."""
     out = []
-    ks = (2,) if tier == 'quick' else (2, 3)
-    for k in ks:
-        def rec(prefix):
-            if len(prefix) == k:
-                for seg in ('one', 'each'):
-                    out.append({'types': prefix, 'seg': seg})
-                return
-            for t in TYPES:
-                rec(prefix + t)
-        rec('')
+    for k in (2, 3):
+        for types in _tuples(k):
+            for seg in ('one', 'each'):
+                out.append({'types': types, 'seg': seg, 'pf': 3})
+    for types in _tuples(3):
+        for seg in ('one', 'each'):
+            out.append({'types': types, 'seg': seg, 'pf': 1})
+    if tier != 'quick':
+        for types in _tuples(4):
+            out.append({'types': types, 'seg': 'one', 'pf': 3})
+        for types in _tuples(4, 'MHX'):
+            out.append({'types': types, 'seg': 'each', 'pf': 3})
+        for types in _tuples(4, 'MHX'):
+            out.append({'types': types, 'seg': 'each', 'pf': 1})
     return out
 
 
 def case_name(c):
-    return '%s/%s' % (c['types'], c['seg'])
+    return '%s/%s/pf%d' % (c['types'], c['seg'], c.get('pf', 3))
 
 
 def origin_body(rid, pos):
@@ -75,6 +88,8 @@ class Run:
         self.tr = []
         self.facts = set()
         self.bad = None               # violation found by the origin side (e.g. mangled request)
+        self.step = 0
+        self.sent_step = {}
 
     def path(self, pos):
         return '/%s-%s' % (self.case['types'][pos].lower(), self.rids[pos])
@@ -154,6 +169,8 @@ class Run:
             self.facts.add('hit-forwarded')
         self.arrived[pos] = (oc, m)
         self.ostage[pos] = 0
+        if self.step > self.sent_step.get(pos, 0):
+            self.facts.add('forwarding-deferred')
 
     def settle(self):
         for _ in range(6):
@@ -183,12 +200,16 @@ class Run:
         return en
 
     def do(self, actor, step):
+        self.step += 1
         if actor == 'C':
             if self.case['seg'] == 'one':
                 data = b''.join(self.request_bytes(p) for p in range(self.k))
+                for p in range(self.k):
+                    self.sent_step[p] = self.step
                 self.sent = self.k
             else:
                 data = self.request_bytes(self.sent)
+                self.sent_step[self.sent] = self.step
                 self.sent += 1
             self.client.send(data)
             return
@@ -335,8 +356,8 @@ def execute(w, case, choices, uid):
 
 # ------------------------------------------------------------------ run
 
-def make_world(ctx, shard):
-    return ls.World(ctx, 'w%d' % shard, ls.port_base_for_check(ctx.pid, shard), conf=CONF, memory_cache=True)
+def make_world(ctx, shard, pf=3):
+    return ls.World(ctx, 'w%dpf%d' % (shard, pf), ls.port_base_for_check(ctx.pid, shard) + (0 if pf == 3 else 10), conf=CONF % pf, memory_cache=True)
 
 
 ASSUME = ['the real squid binary (ASan build of the current tree) runs under the lock-step/virtual-time shim; client and origin are played by the driver',
@@ -349,31 +370,34 @@ def run(ctx):
     ls.build_squid(ctx)
     cases = cases_for(ctx.tier)
     # heavier cases (more forwarded requests => more orders) first, dealt round-robin
-    cases.sort(key=lambda c: (-sum(2 if t in 'MP' else 1 if t == 'D' else 0 for t in c['types']) - (1 if c['seg'] == 'each' else 0), case_name(c)))
+    cases.sort(key=lambda c: (-(sum(2 if t in 'MP' else 1 if t == 'D' else 0 for t in c['types']) + (len(c['types']) - 1 if c['seg'] == 'each' else 0)), case_name(c)))
     t_end = ctx.t0 + ctx.deadline_s - 15
 
     def worker(shard, mine):
         out = {'cases_done': [], 'execs': 0, 'states': set(), 'transitions': 0, 'violations': [], 'facts': {}, 'kicks': 0, 'replays': 0,
                'samples': [], 'crashes': [], 'deadline': False, 'per_case': {}, 'bounds': {}}
-        st = {'w': None, 'n': 0}
+        st = {'w': {}, 'n': 0}
 
-        def fresh():
-            if st['w'] is not None:
-                out['kicks'] += st['w'].sq.kicks
-                st['w'].stop()
-            st['w'] = make_world(ctx, shard)
-            st['w'].start()
+        def fresh(pf):
+            if st['w'].get(pf) is not None:
+                out['kicks'] += st['w'][pf].sq.kicks
+                st['w'][pf].stop()
+                st['w'][pf] = None
+            st['w'][pf] = make_world(ctx, shard, pf)
+            st['w'][pf].start()
 
         def one(case, choices):
+            pf = case['pf']
+            if st['w'].get(pf) is None:
+                fresh(pf)
             st['n'] += 1
-            r = execute(st['w'], case, choices, 's%dn%d' % (shard, st['n']))
-            hp = st['w'].sq.health_problems()
+            r = execute(st['w'][pf], case, choices, 's%dn%d' % (shard, st['n']))
+            hp = st['w'][pf].sq.health_problems()
             if hp:
                 r['crash'] = hp
-                fresh()
+                fresh(pf)
             return r
         try:
-            fresh()
             # determinism obligation: the first executions of this shard's first case on two separate instances
             first = {}
             if mine:
@@ -381,7 +405,7 @@ def run(ctx):
                     first[tuple(ch.choices())] = r['transcript']
                 ex.explore(lambda ch: _wrap(one, mine[0], ch), on0, max_exec=5)
                 out['replays'] += len(first)
-                fresh()
+                fresh(mine[0]['pf'])
             for case in mine:
                 if time.time() > t_end:
                     out['deadline'] = True
@@ -401,18 +425,18 @@ def run(ctx):
                     if r.get('crash'):
                         out['crashes'].append((cn, list(key), '; '.join(r['crash'])[:2000]))
                     if len(out['samples']) < 2 and out['execs'] % 37 == 5:
-                        out['samples'].append({'case': cn, 'choices': list(key), 'labels': ch.labels(), 'transcript': r['transcript']})
+                        out['samples'].append({'case': cn, 'choices': list(key), 'schedule': _taken(ch), 'transcript': r['transcript']})
                     if r['violation']:
                         k, what = r['violation']
                         if not any(k == k0 for k0, _, _ in out['violations']):
                             for attempt in range(2):
                                 if attempt == 0:
-                                    fresh()
+                                    fresh(case['pf'])
                                 r2 = one(case, list(key))
                                 out['replays'] += 1
                                 if not r2['violation'] or r2['violation'][0] != k:
                                     raise HarnessError('violation not reproducible: %s %r: %s / replay gave %r' % (cn, list(key), what, r2['violation']))
-                            out['violations'].append((k, '%s, schedule %s: %s' % (cn, ' '.join(ch.labels_taken()), what), {'case': case, 'choices': list(key)}))
+                            out['violations'].append((k, '%s, schedule %s: %s' % (cn, ' '.join(_taken(ch)), what), {'case': case, 'choices': list(key)}))
                         if len(out['violations']) >= 6:
                             stop['v'] = True
                             return True
@@ -426,9 +450,10 @@ def run(ctx):
                     out['deadline'] = True
                     break
         finally:
-            if st['w'] is not None:
-                out['kicks'] += st['w'].sq.kicks
-                st['w'].stop()
+            for w_ in st['w'].values():
+                if w_ is not None:
+                    out['kicks'] += w_.sq.kicks
+                    w_.stop()
         out['states'] = list(out['states'])
         return out
 
@@ -458,7 +483,7 @@ def run(ctx):
     for name, choices, what in crashes:
         violations.append(Violation('crash:' + name.split('/')[0], 'squid crashed/asserted during %s %r: %s' % (name, choices, what), {'case': None}))
     if complete and not violations:
-        need = {'hit-served-from-cache': 10, 'origin-finished-later-request-first': 10}
+        need = {'hit-served-from-cache': 10, 'origin-finished-later-request-first': 10, 'forwarding-deferred': 10}
         miss = {f: facts.get(f, 0) for f, n in need.items() if facts.get(f, 0) < n}
         if miss:
             raise HarnessError('vacuity guard: too few executions with %r (all facts: %r)' % (miss, facts))
@@ -469,7 +494,8 @@ def run(ctx):
         'bound_completed': ('all orders of all cases, k<=%d' % kmax) if complete else 'partial: %d of %d cases complete' % (len(done), len(cases)),
         'max_preemptions_needed': max(bounds.values()) if bounds else 0,
         'exhaustive': complete and not deadline, 'kicks': tot['kicks'], 'determinism_replays': tot['replays'], 'facts': facts,
-        'rule': 'case = k requests (k=2 quick; k in {2,3} thorough) over {GET miss, GET hit, HEAD, POST, GET denied} x {all in one segment, one per segment}; '
+        'rule': 'case = k requests over {GET miss, GET hit, HEAD, POST, GET denied} x {all in one segment, one per segment} x pipeline_prefetch {3, 1}: '
+                'quick k in {2,3} (prefetch 1: k=3); thorough adds k=4 (all 625 type tuples in one segment; tuples over {miss, hit, denied} one per segment, prefetch 3 and 1); '
                 'per case every order of the enabled actions {client sends next request, origin sends head of i, origin sends rest of i} is executed',
         'samples': samples[:6], 'executions_per_case_sample': dict(sorted(per_case.items())[:12]),
     }
@@ -481,16 +507,18 @@ def _wrap(one, case, ch):
     r = one(case, ch.prefix)
     inner = r['chooser']
     ch.points = inner.points
-    if not hasattr(ch, 'labels_taken'):
-        ch.labels_taken = lambda: [p[1].split('/')[p[2]] for p in ch.points]
     return r
+
+
+def _taken(ch):
+    return [p[1].split('/')[p[2]] for p in ch.points]
 
 
 def replay(ctx, data):
     ls.build_squid(ctx)
     if not data.get('case'):
         raise HarnessError('this replay file records a crash; re-run the tier to reproduce')
-    w = make_world(ctx, 0)
+    w = make_world(ctx, 0, data['case'].get('pf', 3))
     w.start()
     try:
         r = execute(w, data['case'], data['choices'], 'r0n1')
